@@ -32,8 +32,11 @@ def run(tier, seed):
     cases = lc.dedup(cases)
     verdicts = vlib.replay(cases, work, jobs=12, timeout_ms=10000, name="c01")
     r.add_cases(cases, verdicts, nontrivial=lc.nontrivial)
+    # the same programs as ONE MODULE each (how `steel file.scm` runs code: builtins resolve to #%prim.*, which
+    # selects the specialised op codes, arity-free calls and the JIT's typed helpers)
+    lc.replay_modules(vlib, cases, work, r, "c01.mod", nontriv=lc.nontrivial_mod)
     r.cov["rule"] = ("programs assembled by Lang.tla's builder (all programs within the node budget) "
-                     "+ seeded random walks of the builder (9-16 nodes) + LangFam.tla families, run on its CEK machine; non-trivial = observes an emit, an error or a non-void value")
+                     "+ seeded random walks of the builder (9-16 nodes) + LangFam.tla families, run on its CEK machine, replayed as top-level units and (programs without an expected error) as one module file; non-trivial = observes an emit, an error or a non-void value")
     r.cov["exhaustive"] = True
     return r.finish()
 
